@@ -8,7 +8,7 @@ class Driver(ChanDriver):
     PID = 'C06'
     PROP = 'c06_ok'
     PROFILES = [('faults', 250, 3000)]
-    CONC = [('fault', concdrv.gen_fault, 'conc_fault_ok', 40, 600),
+    CONC = [('fault', concdrv.gen_fault, 'conc_fault_ok', 100, 1000),
             ('openfault', concdrv.gen_openfault, 'conc_openfault_ok', 20, 200)]
     RULE = ("scenarios from the profile faults of harness/changen.py: a session of "
             "synchronous calls, gets, (confirmed) publishes, consumers and idle "
